@@ -17,7 +17,9 @@ for d in sorted(glob.glob(os.path.join(root, 'seeded', 'C*-*'))):
     need = str(meta.get('needs_to_manifest', '')).replace('|', '/').replace('\n', ' ')
     if len(need) > 140:
         need = need[:137] + '...'
-    if meta.get('status') == 'retired':
+    if meta.get('status') == 'out_of_scope':
+        res = 'not a violation of the property as written (unspecified behaviour, see text); ' + '%s by %s quick' % (det.get('result', 'not run'), det.get('check', name.split('-')[0]))
+    elif meta.get('status') == 'retired':
         res = 'retired (harmless on the repaired tree)'
     else:
         res = '%s by %s quick (%ss)' % (det.get('result', 'not run'), det.get('check', name.split('-')[0]), det.get('seconds', '?'))
